@@ -175,6 +175,85 @@ def _failing_step_child(conn, shapes, cpus):
         conn.send("Machinery:" + type(err).__name__ + ":" + str(err)[:80])
 
 
+FAKE_PRODIGAL = '''#!%s
+import sys
+import time
+args = sys.argv[1:]
+sequence = "".join(line.strip() for line in sys.stdin if not line.startswith(">"))
+meta = any(flag == "-p" and value in ("meta", "anon") for flag, value in zip(args, args[1:]))
+if len(sequence) < 20000:
+    time.sleep(0.4)     # meanwhile other workers take the other records
+print("# Sequence Data: seqnum=1;seqlen=%%d" %% len(sequence))
+print("# Model Data: mode=%%s" %% ("meta" if meta else "single"))
+print(">1_1_300_+")
+if not meta:
+    print(">2_401_1000_-")
+'''
+
+
+def _prodigal_step_child(conn, lengths, cpus, fake):
+    """ child process: the whole pre-processing step on unannotated records with the shipped gene finding module, the
+        prodigal binary replaced by a stand-in that - like the real one - finds other genes in its "-p meta" mode, which the
+        runner asks for on contigs under 20 kb """
+    try:
+        import hashlib
+        import logging
+        import multiprocessing
+        # this process was spawned (nothing inherited from the harness); the pools of the code under test fork, as they
+        # do in a run started from the command line
+        multiprocessing.set_start_method("fork", force=True)
+        from ..common import import_repo
+        import_repo()
+        logging.disable(logging.CRITICAL)
+        from antismash.common import record_processing
+        from antismash.common.secmet import Record
+        from antismash.config import build_config, destroy_config
+        from antismash.support import genefinding
+        destroy_config()
+        options = build_config(["--cpus", str(cpus), "--taxon", "bacteria", "--genefinding-tool", "prodigal",
+                                "--executable-paths", f"prodigal={fake}", "--minlength", "1000"], isolated=True,
+                               modules=[genefinding])
+        records = [Record(seq="GCA" * (length // 3), id=f"contig_{idx + 1}") for idx, length in enumerate(lengths)]
+        try:
+            out = record_processing.pre_process_sequences(records, options, genefinding)
+            projected = _project_records(out)
+            for item in projected:
+                item["seq"] = "sha1:" + hashlib.sha1(item["seq"].encode()).hexdigest()
+                for cds in item["cds"]:
+                    cds["translation"] = "sha1:" + hashlib.sha1(cds["translation"].encode()).hexdigest()
+            conn.send({"exc": "", "v": projected})
+        except Exception as err:  # pylint: disable=broad-except
+            conn.send({"exc": type(err).__name__, "v": []})
+    except Exception as err:  # pylint: disable=broad-except
+        conn.send("Machinery:" + type(err).__name__ + ":" + str(err)[:80])
+
+
+def _prodigal_step(lengths, cpus, scratch):
+    import multiprocessing
+    import stat
+    import sys
+    import tempfile
+    folder = tempfile.mkdtemp(prefix="c18p_", dir=scratch)
+    fake = os.path.join(folder, "prodigal")
+    with open(fake, "w", encoding="utf-8") as handle:
+        handle.write(FAKE_PRODIGAL % sys.executable)
+    os.chmod(fake, os.stat(fake).st_mode | stat.S_IXUSR)
+    context = multiprocessing.get_context("spawn")
+    ours, theirs = context.Pipe(duplex=False)
+    child = context.Process(target=_prodigal_step_child, args=(theirs, lengths, cpus, fake))
+    child.start()
+    outcome = ours.recv() if ours.poll(120) else {"exc": "Hang", "v": []}
+    if outcome == {"exc": "Hang", "v": []}:
+        child.kill()
+        os.system(f"pkill -P {child.pid} >/dev/null 2>&1")
+    else:
+        child.join(20)
+    shutil.rmtree(folder, ignore_errors=True)
+    if isinstance(outcome, str):
+        raise MachineryError(outcome)
+    return outcome
+
+
 class _GenefindingModule:
     """ the shape pre_process_sequences expects of a gene finding module; run_on_record must survive pickling """
     run_on_record = staticmethod(stub_genefinding_some)
@@ -436,6 +515,14 @@ def observe_transport(case: dict, _scratch: str = None) -> dict:
                 raise MachineryError(outcome)
             return {"op": "transport", "via": via, "cpus": cpus, "shapes": case["shapes"], "before": [], "before_exc": before_exc,
                     "after": {"exc": outcome, "v": []}, "_stuck": False}
+        elif via == "pre_process_prodigal":
+            # unannotated contigs, some under 20 kb, through the shipped gene finding module: one worker (the calls one
+            # after another) against the configured number of workers, each run in a process of its own
+            sequential = _prodigal_step(case["lengths"], 1, _scratch)
+            if sequential["exc"]:
+                raise MachineryError(f"the sequential reference run failed: {sequential['exc']}")
+            before = sequential["v"]
+            after = _prodigal_step(case["lengths"], cpus, _scratch)
         elif via == "pre_process":
             # the whole pre-processing step (ids, sanitisation and gene finding through the parallel helper with the
             # configured number of workers) against its steps applied to one record after another in this process
@@ -480,8 +567,16 @@ def _fanout(jobs, procs):
     if not jobs:
         return []
     context = multiprocessing.get_context("fork")
-    with ProcessPoolExecutor(max_workers=max(1, min(procs, len(jobs))), mp_context=context) as pool:
-        return list(pool.map(_observe_many, jobs))
+    pool = ProcessPoolExecutor(max_workers=max(1, min(procs, len(jobs))), mp_context=context)
+    try:
+        # (a helper process lost abruptly can leave the executor waiting for ever: give up with a machinery failure instead)
+        return list(pool.map(_observe_many, jobs, timeout=2400))
+    except TimeoutError as err:
+        for proc in list((pool._processes or {}).values()):  # pylint: disable=protected-access
+            proc.kill()
+        raise MachineryError("the helper processes of the C18 harness did not come back within 40 minutes") from err
+    finally:
+        pool.shutdown(wait=False, cancel_futures=True)
 
 
 # ---- cases ------------------------------------------------------------------------------------------------
@@ -679,6 +774,11 @@ def _transport_cases(ctx, rng, shapes):
             geneless = [dict(shape, genes=[], areas=[]) for shape in batch[:5]]
             for cpus in (1, 2, 4):
                 cases.append({"op": "transport", "input": {"via": "pre_process_error", "cpus": cpus, "shapes": geneless}, "sampled": False})
+    # unannotated contigs through the shipped gene finding module (stand-in prodigal binary): short and long contigs mixed
+    for lengths, worker_counts in (([6000, 24000, 27000, 21000], (2, 4, 8)), ([24000, 6000, 30000, 3000, 21000, 27000], (3, 6))):
+        for cpus in (worker_counts if not ctx.quick else worker_counts[1:2]):
+            cases.append({"op": "transport", "input": {"via": "pre_process_prodigal", "cpus": cpus, "shapes": [], "lengths": lengths},
+                          "sampled": False})
     return cases
 
 
